@@ -264,6 +264,8 @@ pub enum OSt {
 pub struct SubSlot {
     pub token: SubscriptionToken,
     pub active: bool,
+    /// how often the token was handed to unsubscribe (tokens are Copy: a second call must be a no-op)
+    pub unsubs: u8,
     /// round in which the subscription was made
     pub made_round: u32,
     pub delivered: u32,
@@ -1732,6 +1734,9 @@ impl World {
                         if o.state_unsubscribe {
                             v.push(Action::StateUnsubscribe(k, j));
                         }
+                    } else if sub.unsubs == 1 && s.st != OSt::Dead {
+                        // the same (Copy) token presented a second time to a live observer
+                        v.push(Action::Unsubscribe(k, j));
                     } else if self.cfg.mon.c10 && o.state_unsubscribe && s.st == OSt::Dead && j == 0 && !s.state_unsub_after_gone {
                         // the observer is gone: must be a silent no-op
                         v.push(Action::StateUnsubscribe(k, j));
@@ -1974,7 +1979,7 @@ impl World {
                             drop(h);
                             if let Ok(token) = r {
                                 cover("subscription-made-inside-a-handler");
-                                o.borrow_mut()[target].subs.push(SubSlot { token, active: true, made_round: sh.round.get(), delivered: 0, got_invalidated: false, made_in_handler_of_round: Some(sh.round.get()) });
+                                o.borrow_mut()[target].subs.push(SubSlot { token, active: true, unsubs: 0, made_round: sh.round.get(), delivered: 0, got_invalidated: false, made_in_handler_of_round: Some(sh.round.get()) });
                             }
                         }
                     }
@@ -1989,7 +1994,7 @@ impl World {
                         if obs[*k].st == OSt::InUse && obs.iter().filter(|s| s.node == obs[*k].node && s.st == OSt::InUse).any(|s| s.subs.iter().any(|x| x.active)) {
                             cover("second-subscription-on-subscribed-node");
                         }
-                        obs[*k].subs.push(SubSlot { token, active: true, made_round: self.sh.round.get(), delivered: 0, got_invalidated: false, made_in_handler_of_round: None });
+                        obs[*k].subs.push(SubSlot { token, active: true, unsubs: 0, made_round: self.sh.round.get(), delivered: 0, got_invalidated: false, made_in_handler_of_round: None });
                         self.dirty = true;
                     }
                     (_, Err(e)) => violation("C10/subscribe-rejected", format!("subscribe on a live observer returned Err({e:?})")),
@@ -2000,11 +2005,15 @@ impl World {
                     let obs = self.obs.borrow();
                     (obs[*k].handles[0].clone(), obs[*k].subs[*j].token)
                 };
+                let again = self.obs.borrow()[*k].subs[*j].unsubs > 0;
                 let r = h.unsubscribe(tok);
                 drop(h);
-                if r != Ok(()) {
+                if again {
+                    cover("unsubscribe-same-token-twice");
+                } else if r != Ok(()) {
                     violation("C10/unsubscribe-own-token-rejected", format!("unsubscribe with the observer's own token returned {r:?}"));
                 }
+                self.obs.borrow_mut()[*k].subs[*j].unsubs += 1;
                 self.obs.borrow_mut()[*k].subs[*j].active = false;
                 self.dirty = true;
             }
@@ -2030,6 +2039,7 @@ impl World {
                     cover("state-unsubscribe-after-observer-gone");
                     self.obs.borrow_mut()[*k].state_unsub_after_gone = true;
                 }
+                self.obs.borrow_mut()[*k].subs[*j].unsubs += 1;
                 self.obs.borrow_mut()[*k].subs[*j].active = false;
                 self.dirty = true;
             }
